@@ -77,6 +77,14 @@ def handleDescr : List String → String
       let g := gyration pl
       s!"COM {showV (com l)} RG2 {showRat (rg2 l)} G {showSym g} GI {showRat g.tr} {showRat g.tr2} {showRat g.e2} {showRat g.det} I {showSym (inertia l)}"
     | _, _ => "bad-op"
+  -- rdf <lo> <hi> <n bins> <n pairs> <sum of 1/V> <distances…>: histogram, g(r)·π, bin centres, and the smallest distance of a value from an edge
+  | "rdf" :: lo :: hi :: ns :: np :: iv :: rest =>
+    match parseRat lo, parseRat hi, ns.toNat?, np.toNat?, parseRat iv, rest.mapM parseRat with
+    | some lo, some hi, some n, some np, some iv, some ds =>
+      if hi ≤ lo || n == 0 then "bad-op" else
+      let marg := ds.foldl (fun m d => (List.range (n + 1)).foldl (fun m k => let e := d - edge lo hi n k; let a := if e < 0 then -e else e; if a < m then a else m) m) 1
+      s!"H {showNats (histogram lo hi n ds)} G {" ".intercalate ((rdfTimesPi lo hi n np iv ds).map showRat)} C {" ".intercalate ((List.range n).map (fun k => showRat (binCentre lo hi n k)))} M {showRat marg}"
+    | _, _, _, _, _, _ => "bad-op"
   | _ => "bad-op"
 
 end MdVerif.Driver.DescrP
